@@ -214,7 +214,7 @@ func (gl GitLabReporter) Create(ctx context.Context, dst any, comment PendingCom
 	mr := dst.(gitlabMR)
 	opt := reportToGitLabDiscussion(comment, mr.diffs, mr.version)
 	if opt == nil {
-		return nil
+		return errCommentSkipped
 	}
 	slog.Debug("Creating a new merge request discussion", loggifyDiscussion(opt)...)
 	reqCtx, cancel := context.WithTimeout(ctx, gl.timeout)
